@@ -93,7 +93,10 @@ def ev(n, env):
   if t in ("var", "svar"):
     return env[n[1]]
   if t == "mul":
-    return ev(n[1], env) @ ev(n[2], env)
+    a, b = ev(n[1], env), ev(n[2], env)
+    if numpy.isscalar(a) or numpy.isscalar(b):   # a symbolic zero operand
+      return 0.0
+    return a @ b
   if t == "add":
     return ev(n[1], env) + ev(n[2], env)
   if t == "sub":
@@ -163,8 +166,8 @@ class Exec:
         return m
     raise TranslationError(f"no method {name}")
 
-  def define(self, name, val):
-    if isinstance(val, M) and val.node[0] != "var":
+  def define(self, name, val, force=False):
+    if isinstance(val, M) and (val.node[0] not in ("var", "zero") or (force and val.node[0] == "var")):
       self.defs.append((name, val))
       val = M(("var", name), val.rows, val.cols)
     elif isinstance(val, S) and val.node[0] not in ("svar", "sconst"):
@@ -228,7 +231,7 @@ class Exec:
     if isinstance(t, ast.Name):
       self.define(t.id, v)
     elif isinstance(t, ast.Attribute) and ast.unparse(t.value) == "self":
-      self.define(t.attr, v)
+      self.define(t.attr, v, force=True)
     elif isinstance(t, ast.Tuple) and isinstance(v, tuple) and len(v) == len(t.elts):
       for e, x in zip(t.elts, v):
         self.assign(e, x, st)
@@ -237,14 +240,16 @@ class Exec:
 
   def loop(self, st):
     """for w, gp in zip(self.weights, self.gaussian_process_list): acc = acc + f(w) * gp.method(...)   ->   sum over components"""
-    if ast.unparse(st.iter).replace(" ", "") != "zip(self.weights,self.gaussian_process_list)" or ast.unparse(st.target).replace(" ", "") != "w,gp":
+    if ast.unparse(st.iter).replace(" ", "") != "zip(self.weights,self.gaussian_process_list)" or ast.unparse(st.target).replace(" ", "").strip("()") != "w,gp":
       raise TranslationError(f"{self.where(st)}: only the weighted-components loop is in the table")
     self.env["w"] = S(("comp", "w"))
     self.env["gp"] = "__component__"
     before = {k: v for k, v in self.env.items()}
     for s in st.body:
       if isinstance(s, ast.Assign) and len(s.targets) == 1 and isinstance(s.targets[0], ast.Tuple):
-        self.assign(s.targets[0], self.ev(s.value), s)
+        vals = self.ev(s.value)
+        for e, x in zip(s.targets[0].elts, vals):   # per-component values stay inside the sum binder: no definition is emitted
+          self.env[e.id] = x
         continue
       if not (isinstance(s, ast.Assign) and isinstance(s.targets[0], ast.Name) and isinstance(s.value, ast.BinOp) and isinstance(s.value.op, ast.Add)
               and isinstance(s.value.left, ast.Name) and s.value.left.id == s.targets[0].id):
